@@ -377,6 +377,15 @@ let handle (line : string) : string =
             | Ok _ -> "(bad-use)"
             | other -> show_res (fun _ -> "") other)
        | _ -> "(no-transformer)")
+  | ["BRACKET"; h] -> show_bool (check_bracket_closed (str_of_string (hex_decode h)))
+  | "REPL" :: hs ->
+      (* a REPL session on a fresh standard interpreter: input lines (hex, "-" for an empty line) *)
+      reset ();
+      ignore (new_inst 0 true);
+      (* over a pipe rustyline hands each line over with its newline *)
+      let lines = List.map (fun h -> (if h = "-" then [] else str_of_string (hex_decode h)) @ [n_of_int 10]) hs in
+      let rs = repl_run !w_fs cwd !efuel_ref (ctx_of 0) lines in
+      Printf.sprintf "(repl out=%s errs=%d)" (hex_of_str rs.r_out) (List.length rs.r_errors)
   | ["PRINTF"; b] ->
       "(disp " ^ hex_of_str (print_f32 (f32_of_bits (z_of_int (int_of_string ("0x" ^ b))))) ^ ")"
   | _ -> failwith ("bad line " ^ line)
